@@ -54,6 +54,9 @@ func propC09(c *Check) {
 		if len(calls) == 2 {
 			first := Extract(1, Is(calls[0].(*ssa.Call)))
 			c.MustPass(f, Gate{Name: "first verdict finalized => return it", RejectOnTrue: true, Cond: first}, []ssa.Instruction{calls[1]}, "the legacy retry (only after the current rule failed)")
+			// the legacy rule only ever applied inside the daily node-operation window
+			c.MustPass(f, Gate{Name: "hour < KernelNodeAcceptTimeBegin => no retry", RejectOnTrue: true, Cond: Bin(token.LSS, AnyV, w.ConstNamed("config", "KernelNodeAcceptTimeBegin"))}, []ssa.Instruction{calls[1]}, "the legacy retry (only inside the operation window)")
+			c.MustPass(f, Gate{Name: "hour > KernelNodeAcceptTimeEnd => no retry", RejectOnTrue: true, Cond: Bin(token.GTR, AnyV, w.ConstNamed("config", "KernelNodeAcceptTimeEnd"))}, []ssa.Instruction{calls[1]}, "the legacy retry (only inside the operation window)")
 			// the fork test is made on the snapshot's own timestamp T (the T of the first verification),
 			// not on the earlier legacy timestamp: inside the first operation window after the fork the
 			// legacy timestamp still precedes the fork
